@@ -80,20 +80,24 @@ class Equivalence:
 
   def diffscript(self, other, selfvar):
     outscript = []
-    for diffitem in self.diff(other):
+    differences = self.diff(other)
+    if isinstance(differences, tuple):
+      # incompatible lines: a single item is returned
+      differences = [differences]
+    for diffitem in differences:
       if diffitem[0] == "incompatible":
         if diffitem[1] == "record_type":
           raise gfapy.RuntimeError(
             "Cannot compute conversion script: different record type\n"+
             "Line: {}\n".format(self)+
             "Other: {}\n".format(other)+
-            "{0} != {1}",format(diffitem[2], diffitem[3]))
+            "{0} != {1}".format(diffitem[2], diffitem[3]))
         elif diffitem[1] == "version":
           raise gfapy.RuntimeError(
             "Cannot compute conversion script: different GFA version\n"+
             "Line: {}\n".format(self)+
             "Other: {}\n".format(other)+
-            "{0} != {1}",format(diffitem[2], diffitem[3]))
+            "{0} != {1}".format(diffitem[2], diffitem[3]))
       elif diffitem[0] == "different":
         if diffitem[1] == "positional_field":
           outscript.append("{0}.set('{1}', '{2}')".format(selfvar,
@@ -114,9 +118,10 @@ class Equivalence:
             outscript.append("{0}.set_datatype('{1}', '{2}')".format(selfvar,
                                       diffitem[3].replace("'","\\'"),
                                       diffitem[4].replace("'","\\'")))
+            # diffitem[5] is the value, which is not always a string
             outscript.append("{0}.set('{1}', '{2}')".format(selfvar,
-                                      diffitem[3].replace("'","\\'"),
-                                      diffitem[5].replace("'","\\'")))
+                          diffitem[3].replace("'","\\'"),
+                          other.field_to_s(diffitem[3]).replace("'","\\'")))
         elif diffitem[1] == "<":
           if diffitem[2] == "tag":
             outscript.append("{0}.delete('{1}')".format(selfvar,
